@@ -811,6 +811,11 @@ func (c *SpecCtx) call(x *ast.CallExpr) SpecVal {
 			c.fail("no map range #%s", n.T)
 		}
 		return bv(app("select", ft.get(c.st, ft.visKey(r)), k.T))
+	case "closed":
+		// closed(ch): the channel has been closed (ghost)
+		v := c.tr(x.Args[0])
+		ft.keySort("CLOSED", arraySort("Int", "Bool"))
+		return bv(app("select", ft.get(c.st, "CLOSED"), v.T))
 	case "held":
 		// held(lockexpr): the lock is held at this point (ghost)
 		v := c.tr(x.Args[0])
